@@ -100,7 +100,7 @@ let handle (line : string) : string =
            | Ok (bs, _) -> "bytes=" ^ hex_of_bytes bs
            | Panic -> "PANIC" | Err _ -> "nofst") in
        let (((h, m), e), rj) = (match fin with Ok (_, st) -> st | _ -> b_stats b1) in
-       let m_out = mstr ^ ";bw=" ^ (if fe = "all" then "na" else Buffer.contents bw) ^ ";st=" ^ (if fe = "raw" || fe = "raw_loop" then String.concat "," (List.map string_of_n [h; m; e; rj]) else "na") in
+       let m_out = mstr ^ ";bw=" ^ (if fe = "all" || fe = "dirty" then "na" else Buffer.contents bw) ^ ";st=" ^ (if fe = "raw" || fe = "raw_loop" then String.concat "," (List.map string_of_n [h; m; e; rj]) else "na") in
        (* spec *)
        let (sres, content) =
          (match sem with
